@@ -495,6 +495,7 @@ func (g *Gen) convert(x Val, to types.Type, f *Frame) Val {
 			conv = fmt.Sprintf("(to_int (fp.to_real (fp.roundToIntegral RTZ %s)))", x.S)
 		}
 		und := g.havocVal("fptoint_undef", to)
+		g.fpUndefSigned[und.S] = tsigned
 		g.assume(g.typeInv(und, ""))
 		g.Assumptions["float-to-integer conversion out of range is unconstrained (implementation-defined in Go)"] = true
 		return Val{S: ite(inRange, conv, und.S), Sort: ts, GT: to}
